@@ -254,7 +254,7 @@ def run(ctx):
     # directed UML probes (shapes random edits reach rarely): explicit constructor of the generated constructor's arity,
     # overloads of equal arity returning same-named classes of two packages / the same type (the latter = K-C07-1)
     for probe in umlsynth.probe_names("TestClassDiagram"):
-        if not probe.startswith(("explicit-ctor", "overloads")):
+        if not probe.startswith(("explicit-ctor", "overloads", "redeclare-renamed-params")):
             continue
         for lang, kind in (("cpp", "uml"), ("csharp", "uml_cs")):
             cd = umlsynth.load("TestClassDiagram")
